@@ -21,9 +21,9 @@ import (
 type c02Image struct {
 	dir     string
 	point   string
-	nStates int // number of model states recorded when the image was taken (S_0..S_n)
-	durable int // index of the durable floor state
-	durSize int64
+	nStates int   // number of model states recorded when the image was taken (S_0..S_n)
+	durable int   // index of the durable floor state
+	tornLo  int64 // >= 0: the image was taken right after a writer flush that appended (tornLo, size]
 }
 
 // frameEnds returns the end offsets of the valid frames of a log file.
@@ -155,6 +155,45 @@ func c02Evaluate(ctx *vkit.Ctx, cs *vkit.Case, dir, what string, cands []*vexec.
 // C02 — a crash at any point recovers a state explained by the acknowledged history.
 func TestVerifC02(t *testing.T) {
 	vkit.Run(t, "C02", func(ctx *vkit.Ctx) {
+		ctx.Probe("D36", func(cs *vkit.Case) string {
+			// fixed scenario: process death inside VCompress, after the index was rebuilt on
+			// new arena files and before the snapshot that records the new precision exists
+			defer verifhook.Reset()
+			x := vexec.NewExec(cs, cs.SubDir("data"))
+			defer func() {
+				if x.E != nil {
+					x.E.Close()
+				}
+			}()
+			x.VCreate(vexec.IndexCfg{Name: "ia", Metric: "euclidean", Prec: "float32", M: 4, EfC: 8})
+			for i := 0; i < 4; i++ {
+				x.VAdd("ia", fmt.Sprintf("n%d", i), []float32{float32(i), 1, 2}, map[string]any{"n": float64(i)})
+			}
+			x.E.AOF.Flush()
+			pre := x.M.Clone()
+			img := cs.SubDir("img")
+			took := false
+			verifhook.Set("snap.begin", func(string, any) {
+				if !took {
+					took = true
+					if err := vexec.ImageDir(x.Dir, img); err != nil {
+						panic(err)
+					}
+				}
+			})
+			x.VCompress("ia", "float16")
+			verifhook.Reset()
+			if !took {
+				return ""
+			}
+			e, err := engine.Open(vexec.Options(img))
+			if err != nil {
+				return "Open of the crash image taken inside VCompress fails: " + err.Error()
+			}
+			defer e.Close()
+			msg, _ := vexec.ReadRecovered(e).Explain([]*vexec.Model{pre, x.M.Clone()})
+			return msg
+		})
 		ctx.Group("crash", ctx.N(240, 4000), func(cs *vkit.Case) {
 			defer verifhook.Reset()
 			x := vexec.NewExec(cs, cs.SubDir("data"))
@@ -166,8 +205,10 @@ func TestVerifC02(t *testing.T) {
 			aof := filepath.Join(x.Dir, "kektordb.aof")
 			g := vexec.NewGen(cs.R)
 			g.NoImport = cs.R.Chance(0.5)
+			g.NoDupReinforce = true
 			states := []*vexec.Model{x.M.Clone()}
-			durable, durSize := 0, int64(0)
+			durable := 0
+			prevSize := int64(0) // log size after the previous completed flush
 			var mu sync.Mutex
 			var pending []c02Image
 			imgNo := 0
@@ -179,6 +220,24 @@ func TestVerifC02(t *testing.T) {
 			verifhook.SetGlobal(func(name string, _ any) {
 				mu.Lock()
 				defer mu.Unlock()
+				tornLo := int64(-1)
+				if strings.HasPrefix(name, "lazy.") {
+					// bookkeeping always (also for ticker flushes of the live engine while an
+					// image is being evaluated); sizes are read from the live log file
+					switch name {
+					case "lazy.truncated":
+						prevSize = 0
+						return
+					case "lazy.replaced":
+						prevSize = c02FileSize(aof)
+						return
+					case "lazy.flushed":
+						// only at this instant is "the log ends inside the bytes just written" a
+						// state a process death can leave (nothing else on disk changed meanwhile)
+						tornLo = prevSize
+						prevSize = c02FileSize(aof)
+					}
+				}
 				if evaluating || strings.HasPrefix(name, "replay.") || name == "http.panic_recovered" {
 					return
 				}
@@ -198,7 +257,7 @@ func TestVerifC02(t *testing.T) {
 				if err := vexec.ImageDir(x.Dir, dir); err != nil {
 					panic(err)
 				}
-				pending = append(pending, c02Image{dir: dir, point: name, nStates: len(states), durable: durable, durSize: durSize})
+				pending = append(pending, c02Image{dir: dir, point: name, nStates: len(states), durable: durable, tornLo: tornLo})
 				pointsSeen[name] = true
 			})
 			nops := cs.R.Range(10, ctx.N(30, 50))
@@ -232,9 +291,14 @@ func TestVerifC02(t *testing.T) {
 				if ks := x.Kinds[kindsBefore:]; len(ks) > 0 {
 					switch k := ks[len(ks)-1]; k {
 					case "flush", "snapshot", "rewrite", "kvdel", "vaddbatch", "vconfig", "vdrop", "vcompress", "vimportcommit":
-						if !x.Rejected || k == "flush" {
+						autoLinked := false // auto-link edges of a batch are journaled after the batch's flush
+						for _, mi := range x.M.Idx {
+							if len(mi.Cfg.AutoLinks) > 0 {
+								autoLinked = true
+							}
+						}
+						if (!x.Rejected || k == "flush") && !(k == "vaddbatch" && autoLinked) {
 							durable = len(states) - 1
-							durSize = c02FileSize(aof)
 						}
 					}
 				}
@@ -243,43 +307,43 @@ func TestVerifC02(t *testing.T) {
 				pending = nil
 				mu.Unlock()
 				for _, im := range imgs {
+					if ctx.IsKnown("D36") && strings.Contains(strings.Join(x.Kinds[kindsBefore:], "+"), "vcompress") {
+						// recorded finding: a crash inside VCompress (between the arena rebuild
+						// and the end of its snapshot); see probe D36
+						os.RemoveAll(im.dir)
+						ctx.Count("guard.D36_skipped_images", 1)
+						continue
+					}
 					cands := states[im.durable:]
 					what := fmt.Sprintf("crash at %s during op %d (%s)", im.point, i, strings.Join(x.Kinds[kindsBefore:], "+"))
 					ctx.Count("point."+im.point, 1)
-					// torn tail: the log may end at any byte written after the durable floor
+					// torn tail: only for images taken right after a writer flush, inside the bytes
+					// that flush appended
 					imgAof := filepath.Join(im.dir, "kektordb.aof")
 					size := c02FileSize(imgAof)
 					var offs []int64
-					if size > im.durSize && im.durSize >= 0 {
-						ends := c02FrameEnds(imgAof)
-						lo := im.durSize
-						if len(ends) >= 2 && ends[len(ends)-2] > lo && ctx.Quick() {
-							// quick: every offset of the last two frames + each earlier frame boundary
-							for _, e := range ends {
-								if e > im.durSize && e < ends[len(ends)-2] {
-									offs = append(offs, e, e-1)
-								}
-							}
-							k := len(ends) - 3
-							if k >= 0 && ends[k] > lo {
-								lo = ends[k]
-							}
-						}
-						for o := lo + 1; o < size; o++ {
+					if im.tornLo >= 0 && size > im.tornLo {
+						for o := im.tornLo + 1; o < size; o++ {
 							offs = append(offs, o)
 						}
-						max := ctx.N(24, 400)
-						if len(offs) > max { // deterministic thinning
-							step := len(offs) / max
+						max := ctx.N(16, 300)
+						if len(offs) > max { // deterministic thinning, frame boundaries +-1 always kept
+							keep := map[int64]bool{}
+							for _, e := range c02FrameEnds(imgAof) {
+								keep[e-1], keep[e], keep[e+1] = true, true, true
+							}
+							step := len(offs)/max + 1
 							var th []int64
-							for j := 0; j < len(offs); j += step + 1 {
-								th = append(th, offs[j])
+							for j, o := range offs {
+								if j%step == 0 || (keep[o] && len(th) < 3*max) {
+									th = append(th, o)
+								}
 							}
 							offs = th
 						}
 					}
 					for _, o := range offs {
-						if o <= im.durSize || o >= size {
+						if o <= im.tornLo || o >= size {
 							continue
 						}
 						tdir := fmt.Sprintf("%s.t%d", im.dir, o)
